@@ -111,7 +111,38 @@ def make_case(g, rng):
         del ctx_lists[k]
         expect = {"rc": 3, "executes": False}
     elif cls == "malformed_run_space":
-        kind = rng.choice(["bad_mode", "unequal_lengths", "dup_keys", "blocks_not_list"])
+        kind = rng.choice(["bad_mode", "unequal_lengths", "dup_keys", "blocks_not_list", "dup_across_via_source",
+                           "dup_in_block_via_source", "source_select_missing_column", "source_rename_collision"])
+        k0 = sorted(ctx_lists)[0]
+        if kind.startswith(("dup_", "source_")) and kind != "dup_keys":
+            # the offending key / column comes out of an external source file (csv, or json rows)
+            fmt = rng.choice(["csv", "json"])
+            fname = f"extra.{fmt}"
+            col2 = "extra_col"
+            rows = [{k0 if kind.startswith("dup_") else "plain_col": 1.0 + i, col2: 10.0 + i} for i in range(n_runs)]
+            if fmt == "csv":
+                cols = list(rows[0])
+                files[fname] = ",".join(cols) + "\n" + "".join(",".join(str(r[c]) for c in cols) + "\n" for r in rows)
+            else:
+                import json as _json
+
+                files[fname] = _json.dumps(rows)
+            src = {"format": fmt, "path": fname}
+            if kind == "dup_across_via_source":
+                if g.chance(0.5):      # the duplicate appears only after a rename
+                    rows2 = [{"orig_name": r[k0], col2: r[col2]} for r in rows]
+                    cols = list(rows2[0])
+                    files[fname] = (",".join(cols) + "\n" + "".join(",".join(str(r[c]) for c in cols) + "\n" for r in rows2)) if fmt == "csv" else __import__("json").dumps(rows2)
+                    src["rename"] = {"orig_name": k0}
+                run_space["blocks"].append({"mode": "by_position", "source": src})
+            elif kind == "dup_in_block_via_source":
+                run_space["blocks"][0]["source"] = src
+            elif kind == "source_select_missing_column":
+                src["select"] = ["plain_col", "no_such_column"]
+                run_space["blocks"].append({"mode": "by_position", "source": src})
+            else:
+                src["rename"] = {"plain_col": col2}
+                run_space["blocks"].append({"mode": "by_position", "source": src})
         if kind == "bad_mode":
             run_space["blocks"][0]["mode"] = "zipper"
         elif kind == "unequal_lengths":
@@ -119,7 +150,7 @@ def make_case(g, rng):
             ctx_lists[k0] = ctx_lists[k0] + [9.0]
         elif kind == "dup_keys":
             run_space["blocks"].append({"mode": "by_position", "context": {sorted(ctx_lists)[0]: [1.0] * n_runs}})
-        else:
+        elif kind == "blocks_not_list":
             run_space["blocks"] = {"mode": "by_position"}
         expect = {"rc": 3, "executes": False}
     elif cls in ("over_cap", "over_cap_cli_override"):
@@ -184,12 +215,18 @@ def make_case(g, rng):
             argv_extra += ["--context", f"{k}={v}"]
     if cls.startswith("execute") and g.chance(0.3):
         argv_extra += ["--set", "trace.options.detail=hash"]
-    plan = cli.expand_plan(run_space) if isinstance(run_space.get("blocks"), list) and cls not in ("malformed_run_space", "missing_source_file") else None
+    if cls == "execute_ok" and g.chance(0.25):
+        # positive control for the source-file classes: a VALID second block fed from a file (new keys only)
+        files["extra_ok.csv"] = "spare_a,spare_b\n" + "".join(f"{1.0 + i},{2.0 + i}\n" for i in range(n_runs))
+        run_space["combine"] = "by_position"
+        run_space["blocks"].append({"mode": "by_position", "source": {"format": "csv", "path": "extra_ok.csv"}})
+    plan = cli.expand_plan(run_space) if isinstance(run_space.get("blocks"), list) and cls not in ("malformed_run_space", "missing_source_file") and not files else None
     # where the effective run space is declared: top level, nested under pipeline:, top level + a nested decoy
     # (top level wins), or a --run-space-file + a nested decoy (the file wins)
     placement = rng.choice(["top", "top", "nested", "top_plus_nested_decoy", "file_plus_nested_decoy"])
     return {"placement": placement, "class": cls, "nodes": nodes, "run_space": run_space, "argv_extra": argv_extra, "expect": expect, "yaml": yaml_name,
-            "plan_len": len(plan) if plan is not None else None, "first_fail": first_fail, "has_boom": has_boom}
+            "plan_len": len(plan) if plan is not None else (n_runs if files and cls == "execute_ok" else None), "first_fail": first_fail, "has_boom": has_boom,
+            "files": files}
 
 
 def run_case(run, case, scratch, subprocess_=False, strace=False):
@@ -220,6 +257,9 @@ def run_case(run, case, scratch, subprocess_=False, strace=False):
             extra_argv = ["--run-space-file", rsf]
         else:
             cli.write_yaml(ypath, case["nodes"], case["run_space"], trace_cfg)
+    for fname, content in (case.get("files") or {}).items():
+        with open(os.path.join(wd, fname), "w", encoding="utf-8") as fh:
+            fh.write(content)
     before = cli.snapshot(wd)
     argv = ["run", ypath, "-q"] + extra_argv + case["argv_extra"]
     REC.clear()
